@@ -105,7 +105,8 @@ func leavesForHash(blobs storage.Store, hash Key, leafSize uint32, prefix string
 	if err != nil {
 		return nil, err
 	}
-	return verifiedKeys(b, leafSize)
+	// the trailing verification key must be the requested root hash itself
+	return LeafKeys(hash, b, leafSize)
 }
 
 // bytesFromRoot reads the blob referred to by a root hash key
